@@ -257,7 +257,7 @@ func runC03(c *Ctx) {
 			}
 			j := 0
 			for _, q := range qs {
-				if q.nop {
+				if q.nop || q.fz.p.ID < 7 { // keep-alives and system packets never reach a handler
 					continue
 				}
 				if j >= len(msgr.Evs) || !bytes.Equal(msgr.Evs[j].Payload(), q.fz.pay) || msgr.Evs[j].ID != q.fz.p.ID || msgr.Evs[j].Job != q.fz.p.Job {
